@@ -58,3 +58,5 @@ PROP = {'title': 'Typed wrappers are transparent; ==, < and hash are mutually co
                  'box<double> components are pos and max-pos computed in plain double arithmetic (size() is documented as derived)',
                  'mixed-storage operator< of math vectors/dims (row view vs static) does not compile and is not exercised; mixed-storage '
                  '== is']}
+
+PROP['rule'] += " Compile probe: strong_typedef over a user-defined class with user-defined arithmetic, bitwise and comparison operators."
